@@ -66,6 +66,16 @@ CHECKS = {
          "Histories from a DKG-created current group: proposals (valid, one ns outside the window, while busy), forced transitions, incoming DKGs completing/failing/expiring, hand-over signings completing, retrying or falling around a short exec window, idle members and concurrent paid requests; current group may change only by executing a WAITING_EXECUTION transition at/after its time to exactly the incoming group.",
          "Whether a hand-over signing can be created (nonce availability) is observed, not predicted. Authority messages go through the msg service router between blocks.",
          "DESIGN.md 2/C18"),
+ "C09": ("exploration",
+         "runtime monitoring: independent std-lib HMAC-DRBG/sampler reference (self-tested on NIST vectors) vs. real bandrng, the oracle validator committee of every on-chain request (with independently recomputed rolling seed) and the tss keeper's signer selection",
+         "Pure: 96k (seed, nonce, chain id, weights, cnt, tries) tuples per quick run incl. zero weights, totals of exactly 2^64-1, n=100. Chain: histories with 3-14 validators, token distributions incl. power ties, never-activated/deactivated/jailed validators, ask = eligible and eligible+1, sampling_try_count 1/3/10; every accepted request's committee must equal the reference on (recomputed rolling seed, id, chain id, bonded and active validators by power with tokens as weight). TSS: keeper-level signer selection per attempt vs reference, with DE consumption tracked.",
+         "On-chain signer committees of live DKG groups are additionally cross-checked structurally in C05/C10 (assigned members must be active and hold the FIFO head nonce). Weight totals above 2^64-1 are outside the defined domain (the code panics) and only observed.",
+         "DESIGN.md 2/C09"),
+ "C19": ("fault_enumeration",
+         "Go race detector + runtime monitoring with injected faults: yoda's unmodified handlers run concurrently (hook) against an RPC stub backed by an in-process chain holding the real requests, with transient/persistent RPC faults and an executor stub; oracle = per-request report count, raw-report bijection and content, chain acceptance of every report, goroutine quiescence, zero race reports",
+         "Per batch 120 real requests (1..16 raw requests, repeated sources, executables 1..5000 bytes) are handed concurrently to handleTransaction; exactly one report per selecting request, none otherwise; each raw report carries the executor's code/output or 255 for fetch/run failures; every report passes ValidateBasic, the keeper's CheckValidReport and is accepted in a real block; a crash of the process is a violation; the race detector must stay silent.",
+         "Each tx event delivered once. Persistent failure of the request/data-source-hash lookups is out of scope (yoda drops by design). Found and fixed: panic on executables shorter than 32 bytes / error responses treated as empty executables.",
+         "DESIGN.md 2/C19"),
 }
 NA_REASON = "check not built yet (work in progress; see DESIGN.md section 2)"
 
